@@ -30,7 +30,13 @@ class DrainModel:
             st = symex.Sym(self.f)
             for key, v in (init or {}).items():
                 st.write_key(key, v)
-            self._paths[k] = absint.explore(self.f, 0, st, max_visits=max_visits, deep_events=True, max_paths=4000)
+            def on_call(bb, t, args, s2):
+                # a destructor has no caller's buffer: an emptiness test of a slice that is not part of the reader's own state is a test of
+                # the scratch buffer it discards through, which has room (a scratch of length 0 could discard nothing at all)
+                if re.search(r"slice::<impl \[T\]>::is_empty$", call_name(t)) and args and not from_param(absint.deep(s2, args[0]), 1):
+                    return ("const", False, "false", None)
+                return None
+            self._paths[k] = absint.explore(self.f, 0, st, on_call=on_call, max_visits=max_visits, deep_events=True, max_paths=4000)
         return self._paths[k]
 
 
